@@ -15,7 +15,7 @@ TRUSTED = [
 def run_engine(ctx, n, extra_inputs=()):
     if not (ctx.ensure_driver() and ctx.ensure_harness()):
         return None
-    return pipeline(ctx, "engine", n)
+    return pipeline(ctx, "engine", n, model=False)
 
 
 def tx_logs(durable):
@@ -281,3 +281,74 @@ def distribution(inputs, impl):
                 outcomes["ok" if r["ok"] else r["err"][:30]] += 1
             outcomes["crashed-in-flight"] += len(run["crashed"])
     return {"requests": dict(kinds), "outcomes": dict(outcomes)}
+
+
+def validate_traces(ctx, inputs, impl, components=None):
+    """L2: every observed run must be accepted by the Lean component models (trace validation)."""
+    path_in, path_out = ctx.path("enginetrace.in.jsonl"), ctx.path("enginetrace.model.jsonl")
+    rows = [{"id": s["id"], "requests": s["requests"], "runs": impl[s["id"]]["runs"]} for s in inputs if "runs" in impl.get(s["id"], {})]
+    write_jsonl(path_in, rows)
+    p = run_driver("enginetrace", path_in, path_out)
+    if p.returncode != 0:
+        ctx.l2_broken.append({"stream": "enginetrace-driver", "detail": (p.stdout + p.stderr)[-1500:]})
+        return 0
+    validated, rejected = 0, collections.Counter()
+    byid = {s["id"]: s for s in inputs}
+    for r in read_jsonl(path_out):
+        out = r["out"]
+        if "driver_error" in out:
+            ctx.l2_broken.append({"stream": "enginetrace-driver", "id": r["id"], "detail": out["driver_error"]})
+            continue
+        for k, run in enumerate(out["runs"]):
+            validated += 1
+            for rej in run["rejected"]:
+                if components is not None and rej["component"] not in components:
+                    continue
+                rejected[rej["component"]] += 1
+                if rejected[rej["component"]] <= 2:
+                    scn = byid[r["id"]]
+                    ctx.l2_broken.append({"stream": "trace-validation:" + rej["component"], "id": r["id"], "why": rej["why"], "event_index": rej["event"],
+                                          "input": dict(scn, plans=[scn["plans"][k]])})
+    ctx.cov["traces_validated_against_impl"] = validated
+    ctx.cov["trace_rejections"] = dict(rejected)
+    return validated
+
+
+def run_check(ctx, prop, components, nontrivial, rule, quick_n=120, thorough_n=1500):
+    ctx.cov["trusted_base"] = TRUSTED
+    ctx.l1()
+    r = run_engine(ctx, quick_n if ctx.quick else thorough_n)
+    if r is None:
+        return
+    inputs, impl, _ = r
+    validate_traces(ctx, inputs, impl, components)
+    runs, nt = evaluate(ctx, prop, inputs, impl, nontrivial)
+    ctx.cov["evaluations"] = runs
+    ctx.cov["scenarios"] = len(inputs)
+    ctx.cov["distinct_nontrivial"] = nt
+    ctx.cov["rule"] = ("random scenarios of 2-%d requests (create by script with the source named by a literal, a variable or a metadata lookup; revert forced or not; "
+                       "set/delete metadata; previews; shared idempotency keys and references; sequential phases and concurrent bursts) x seeded random schedules "
+                       "over every yield point, persistence latency as a scheduling choice, a crash or a store failure in part of the schedules; non-trivial = %s") % (
+                           4 if ctx.quick else 6, rule)
+    s0 = inputs[0]
+    ctx.cov["samples"] = [{"requests": s0["requests"], "plan": s0["plans"][0], "responses": impl[s0["id"]]["runs"][0]["responses"],
+                           "trace_head": impl[s0["id"]]["runs"][0]["trace"][:12]}]
+    ctx.cov["input_distribution"] = distribution(inputs, impl)
+
+
+def concurrent(scn, run):
+    """did two requests overlap in time (some request resumed while another one was between start and finish)?"""
+    active, overlap = set(), False
+    for t in run["trace"]:
+        if isinstance(t, dict) and "a" in t and t.get("a", -1) >= 0:
+            if t.get("arrive") == "start":
+                active.add(t["a"])
+            if t.get("finish"):
+                active.discard(t["a"])
+            if "at" in t and len(active) > 1 and t["at"] != "start":
+                overlap = True
+    return overlap
+
+
+def restarted(run):
+    return any(isinstance(t, dict) and "crash" in t for t in run["trace"])
